@@ -223,7 +223,7 @@ def alphabet_for(fmt: Any) -> list:  # noqa: ANN401, C901, PLR0911, PLR0912
         reps = spec.representatives()
         small = min(reps, key=lambda v: len(spec.ref_encode(v)))
         out = [{"l": [_p(spec, reps[0]), _p(spec, reps[-1])]}, {"l": []}, {"l": [_p(spec, reps[0])]}]
-        if len(spec.ref_encode(small)) <= 200:
+        if len(spec.ref_encode(small)) <= 200 and spec.origin != "dataclass":  # (dataclass instances are slow to build)
             out.append({"l": [_p(spec, small)] * 255})
         return out
     if not isinstance(fmt, str):
@@ -597,10 +597,18 @@ class SynDcNested(DataClassPayload):
     after: c02_H
 
 
+@vp_compile
+class SynInner(VariablePayload):
+    """A small payload to nest and to list."""
+
+    format_list = ["q", "varlenH"]
+    names = ["number", "blob"]
+
+
 class SynVpMixed(VariablePayload):
     """Interpreted VariablePayload: a bits group between other fields, then a nested payload and a list."""
 
-    format_list = ["H", "bits", "varlenH", SynDcInner, [SynDcInner], "ip_address", "raw"]
+    format_list = ["H", "bits", "varlenH", SynInner, [SynInner], "ip_address", "raw"]
     names = ["first", "b0", "b1", "b2", "b3", "b4", "b5", "b6", "b7", "blob", "inner", "items", "address", "rest"]
 
 
@@ -608,7 +616,7 @@ class SynVpMixed(VariablePayload):
 class SynVpcMixed(VariablePayload):
     """The same layout, compiled."""
 
-    format_list = ["H", "bits", "varlenH", SynDcInner, [SynDcInner], "ip_address", "raw"]
+    format_list = ["H", "bits", "varlenH", SynInner, [SynInner], "ip_address", "raw"]
     names = ["first", "b0", "b1", "b2", "b3", "b4", "b5", "b6", "b7", "blob", "inner", "items", "address", "rest"]
 
 
@@ -782,8 +790,8 @@ def all_specs() -> dict[str, ClassSpec]:
         dc(*[None for _ in dc.__dataclass_fields__])
         syn_keys[dc] = f"syn:dc:{dc.__name__}"
         synthetic.append(dc)
-    for cls in (SynVpMixed, SynVpcMixed):
-        syn_keys[cls] = f"syn:{'vpc' if cls is SynVpcMixed else 'vp'}:mixed"
+    for cls, key in ((SynInner, "syn:vpc:inner"), (SynVpMixed, "syn:vp:mixed"), (SynVpcMixed, "syn:vpc:mixed")):
+        syn_keys[cls] = key
         synthetic.append(cls)
     for fmt in ser.get_available_formats():
         if fmt in ("payload", "payload-list") or fmt in MULTI_VALUE or not wire.known(fmt):
@@ -795,8 +803,7 @@ def all_specs() -> dict[str, ClassSpec]:
     _STATE["syn_keys"] = syn_keys
     for cls in [*concrete, *synthetic]:
         spec = spec_for_class(cls)
-        if cls in syn_keys and spec.single_format is not None and cls not in (SynVpMixed, SynVpcMixed) \
-                and cls not in _SYN_DATACLASSES:
+        if cls in syn_keys and spec.single_format is not None:
             spec.name = f"Syn<{spec.single_format}>"
     for key in list(_NOT_COVERED):
         _SPECS.pop(key, None)
